@@ -75,6 +75,9 @@ def rect_menu(m, offs_scale=0.9):
         for sh in RECT_SHAPES:
             for o in OFFS:
                 items.append((sh, tuple(x / 0.9 * offs_scale for x in o)))
+        # a sudden collapse of the posterior (valid: the truth is still inside): tiny isotropic regions
+        for o in ((0, 0), (offs_scale, offs_scale), (-offs_scale, -offs_scale)):
+            items.append(((0.125, 0.125), o))
         return items
     items = []
     for sh in [(1.0,) * m, (1.0,) + (0.125,) * (m - 1), (0.125,) * (m - 1) + (1.0,)]:
@@ -94,6 +97,8 @@ def rect_pair_menu(m, items):
                 keep.append(k)
             elif sh == (1.0, 1.0) and len(nz) == 2:
                 keep.append(k)
+            elif sh == (0.125, 0.125) and len(nz) == 0:
+                keep.append(k)
         else:
             if len(nz) == m and sh[0] == 1.0:
                 keep.append(k)
@@ -102,7 +107,7 @@ def rect_pair_menu(m, items):
 
 def ell_menu(m):
     items = []
-    shapes = ELL_SHAPES if m == 2 else [np.eye(m).tolist(), np.diag([1.0] + [1.0 / 64] * (m - 1)).tolist()]
+    shapes = (ELL_SHAPES + [((1.0 / 64, 0.0), (0.0, 1.0 / 64))]) if m == 2 else [np.eye(m).tolist(), np.diag([1.0] + [1.0 / 64] * (m - 1)).tolist(), (np.eye(m) / 64).tolist()]
     for S in shapes:
         S = np.array(S, float)
         lam, V = np.linalg.eigh(S)
@@ -114,7 +119,9 @@ def ell_menu(m):
 
 
 def ell_pair_menu(m, items):
-    return [k for k, (S, o) in enumerate(items) if np.any(o != 0) and (k < 2 * m + 1 or not np.allclose(S, np.eye(m)))][:8]
+    base = [k for k, (S, o) in enumerate(items) if np.any(o != 0) and (k < 2 * m + 1 or not np.allclose(S, np.eye(m)))][:8]
+    tiny = [k for k, (S, o) in enumerate(items) if np.allclose(S, np.eye(m) / 64) and not np.any(o != 0)]
+    return base + tiny
 
 
 def make_region(kind, item, mu, h):
